@@ -384,7 +384,12 @@ pub fn execute_cfg(shape: &Shape, seed: u64, mut cfg: NetCfg) -> Outcome {
             }
             let body = body_bytes(&bodies()[shape2.req_body], 0xa5);
             let tr = trailer_sets()[shape2.req_trailers].clone();
-            let stream = match sr.send_request(req).await {
+            // every other shape sends through a clone of the handle (a documented use); the original stays alive
+            let mut sender = sr.clone();
+            if (shape2.req_headers + shape2.req_body) % 2 == 0 {
+                std::mem::swap(&mut sender, &mut sr);
+            }
+            let stream = match sender.send_request(req).await {
                 Ok(s) => s,
                 Err(e) => {
                     *csend.borrow_mut() = format!("send_request:{}", stream_class(&e));
@@ -439,7 +444,7 @@ pub fn execute_cfg(shape: &Shape, seed: u64, mut cfg: NetCfg) -> Outcome {
                 recv_message_cli(&mut stream, &saw).await;
             }
             // last SendRequest dropped: graceful close with H3_NO_ERROR
-            drop(sr);
+            drop((sr, sender));
         });
     }
     let mut fps = Vec::new();
@@ -657,7 +662,7 @@ pub fn run(args: &Args) -> i32 {
     rep.exhaustive = true;
     let shapes = shapes(thorough);
     rep.rule = format!(
-        "{} message shapes from the product of 5 method kinds (GET, POST, OPTIONS, CONNECT, extended CONNECT) x 7 targets (absolute https/http with and without path and query, root path with a query, empty path with a query, authority-form, path + Host header) x 7 header multisets (static-table hit, name-only hit, literal, a name three times interleaved with another, 300-byte value, bytes 0x80-0xff) x 9 body piece lists (0..65536 bytes, pieces of 0,1,2,3,63,64,65,16383,16384 bytes) x 3 trailer options, independently for request and response, request stream whole, split into halves on separate tasks before the first read, or split after the first body read (in the middle of a DATA frame when the transport cut it). Each shape: every execution with <= {bound} deviations, a deviation being a chunk cut (dense for short reads, at write-chunk boundaries +-1 otherwise) or delayed delivery on the request stream in either direction, a partial or pending write acceptance, an application pause between two receive calls, or a scheduling choice other than the FIFO default among client task, client driver, server task, handlers and split halves; plus every shape once under one-byte-per-read and once under one-byte-per-write. Body bytes are position-coded. Oracle: message in = message out. states = distinct (transport cursors, observation progress) fingerprints; non-trivial = executions with at least one deviation.",
+        "{} message shapes from the product of 5 method kinds (GET, POST, OPTIONS, CONNECT, extended CONNECT) x 7 targets (absolute https/http with and without path and query, root path with a query, empty path with a query, authority-form, path + Host header) x 7 header multisets (static-table hit, name-only hit, literal, a name three times interleaved with another, 300-byte value, bytes 0x80-0xff) x 9 body piece lists (0..65536 bytes, pieces of 0,1,2,3,63,64,65,16383,16384 bytes) x 3 trailer options, independently for request and response, request stream whole, split into halves on separate tasks before the first read, or split after the first body read (in the middle of a DATA frame when the transport cut it). Each shape: every execution with <= {bound} deviations, a deviation being a chunk cut (dense for short reads, at write-chunk boundaries +-1 otherwise) or delayed delivery on the request stream in either direction, a partial or pending write acceptance, an application pause between two receive calls, or a scheduling choice other than the FIFO default among client task, client driver, server task, handlers and split halves; plus every shape once under one-byte-per-read and once under one-byte-per-write. Every other shape sends its request through a clone of the SendRequest handle. Body bytes are position-coded. Oracle: message in = message out. states = distinct (transport cursors, observation progress) fingerprints; non-trivial = executions with at least one deviation.",
         shapes.len()
     );
     rep.assumptions = vec![
